@@ -4,6 +4,7 @@ import traceback
 
 from mc import core, drive, dgfam
 from mc.checks import realvocab
+from mc.checks import isa_audit
 
 LEVEL = "model_checking"
 _FAM = {}
@@ -107,9 +108,11 @@ def _vkey(kind, flags, fam, ris):
 
 
 def run(ctx):
+    import os
     res = core.Result()
+    parts = os.environ.get("C03_PARTS", "abc")   # debugging aid; the registered commands run all
     _setup(ctx)
-    items = core.rotate(_items(ctx), ctx.seed)
+    items = core.rotate(_items(ctx), ctx.seed) if "a" in parts else []
     out = core.pmap(_work, items)
     for (famname, pool, reduced, idxs), o in out:
         fam = _FAM[famname]
@@ -130,14 +133,18 @@ def run(ctx):
                 {"part": "synthetic", "family": famname, "pool": pool, "reduced": reduced,
                  "kernel": [r.text for r in ris], "idxs": list(idxs), "flags": flags,
                  "what": what}))
-    for (famname, pool, reduced, idxs), o in out[:2] + out[len(out) // 2: len(out) // 2 + 2]:
+    for (famname, pool, reduced, idxs), o in (out[:2] + out[len(out) // 2: len(out) // 2 + 2]
+                                              if out else []):
         inst = _instances(famname, pool, reduced)
         res.add_sample({"family": famname, "pool": pool,
                         "kernel": [inst[i][1].text for i in idxs],
                         "edges(flags on[, off])": [list(map(list, s)) for s in o["sig"]]})
     # (b) curated real vocabulary on shipped models
-    rv = realvocab.run_part(ctx, "edges")
-    res.merge(rv)
+    if "b" in parts:
+        res.merge(realvocab.run_part(ctx, "edges"))
+    # (c) role-probing audit of the shipped ISA databases
+    if "c" in parts:
+        res.merge(isa_audit.run_part(ctx))
     res.evaluations = res.states
     res.rule = ("(a) synthetic ISA databases: every kernel of length 1 and 2 (and length 3 with a "
                 "restricted middle instruction) over all instruction instances = mnemonic (9 two-"
@@ -160,6 +167,8 @@ def run(ctx):
 def replay(ctx, payload):
     _setup(ctx)
     r = payload["replay"]
+    if r.get("part") == "isa-audit":
+        return isa_audit.replay(ctx, payload)
     if r.get("part") != "synthetic":
         return realvocab.replay(ctx, payload)
     item = (r["family"], r["pool"], r["reduced"], tuple(r["idxs"]))
